@@ -181,6 +181,11 @@ structure Pages where
   z : Bytes → Bytes           -- gzip framing
   zHead : Bytes               -- the 10 header bytes compress yields first
 
+/-- what the request says about caches: one `Cache-Control` directive or `Pragma: no-cache` -/
+inductive CC where
+  | none | maxAge (n : Nat) | noCache | pragma | noStore | badMaxAge
+  deriving DecidableEq, Repr
+
 structure Req where
   method : Method := .get
   ae : AEnc := .absent
@@ -189,6 +194,8 @@ structure Req where
   charsets : List Charset := [.utf8]   -- what find_acceptable_charset tries, in order
   dfltOnly : Bool := true              -- no Accept-Charset header: a failure is a 500, not a 406
   ranges : Option (List (Nat × Nat)) := none   -- get_ranges(Range, size) for a static body
+  cc : CC := .none
+  now : Nat := 0                       -- logical clock: `response.time` of this request (seconds)
 
 def Req.safe (r : Req) : Bool := r.method != .post    -- method in ('GET', 'HEAD')
 
@@ -225,6 +232,7 @@ structure Entry where
   body : Bytes
   src : Src
   gz : Bool
+  created : Nat := 0               -- `response.time` of the request that produced it
 
 structure Cache where
   selAE : Bool
@@ -255,7 +263,7 @@ def teeDone (c : Option Cache) (rq : Req) (r : Resp) (code : Nat) (chunks : List
   | none => none
   | some b =>
     if b.isEmpty then some none     -- cherrypy._cache.delete()
-    else some (cachePut c rq ⟨code, r.hdrs, b, r.src, r.gz⟩)
+    else some (cachePut c rq ⟨code, r.hdrs, b, r.src, r.gz, rq.now⟩)
 
 /-- State threaded through one request: the response and the cache. -/
 structure St where
@@ -423,7 +431,9 @@ def gzipStep (pg : Pages) (rq : Req) (cached : Bool) (r : Resp) : Out :=
   | .idq0 => setError pg 406 r           -- set_response() without raising
 
 /-- `tee_output` -/
-def teeStep (r : Resp) : Out := ({ r with body := ⟨.iter, r.body.chunks⟩, tee := true }, none)
+def teeStep (rq : Req) (r : Resp) : Out :=
+  -- `if 'no-store' in request.headers.values('Cache-Control'): return`
+  if rq.cc = .noStore then (r, none) else ({ r with body := ⟨.iter, r.body.chunks⟩, tee := true }, none)
 
 /-- what a user-supplied before_finalize hook (the harness's probe tool) does when it runs -/
 inductive ProbeAct where
@@ -453,7 +463,7 @@ def applyStep (pg : Pages) (rq : Req) (cached : Bool) : Step → Resp → Out
   | .flatten, r => flattenStep r
   | .etags, r => etagsStep rq r
   | .gzip, r => gzipStep pg rq cached r
-  | .tee, r => teeStep r
+  | .tee, r => teeStep rq r
   | .probe act once, r => probeStep act once r
 
 /-- `HookMap.run` for non-failsafe hooks: stop at the first exception -/
@@ -491,6 +501,8 @@ structure Handler where
   ct : CtBase := .textHtml
   setCL : Option Nat := none           -- handler sets Content-Length itself
   setStream : Bool := false
+  later : List Shape := []             -- what the handler returns on its 2nd, 3rd, … invocation
+                                       -- (default: the same value every time)
 
 structure Tools where
   encode : Bool := false
@@ -502,6 +514,7 @@ structure Tools where
   stream : Bool := false
   probe : Option (Nat × ProbeAct × Bool) := none     -- (priority, action, once)
   errFails : Bool := false         -- request.error_response is a callable that raises
+  jsonOut : Bool := false          -- tools.json_out: sets Content-Type at before_handler (priority 30)
 
 structure Plan where
   h : Handler
@@ -677,7 +690,24 @@ def hooksOf (t : Tools) (teeOn : Bool) : List Step :=
   probeAt t 101 1000
 
 /-- a fresh Response (+ `response.stream` from config) -/
-def freshResp (t : Tools) : Resp := { stream := t.stream }
+def freshResp (t : Tools) : Resp :=
+  { stream := t.stream,
+    hdrs := fun k => if k = .contentType then some (.ctype (if t.jsonOut then .appJson else .textHtml) none) else none }
+
+/-- `MemoryCache.delay` -/
+def cacheDelay : Nat := 600
+
+/-- `caching.get` once a variant was found: `inl e` = it raises, `inr true` = serve the copy,
+    `inr false` = ignore it (the handler runs, the response is teed again).  Only on `inr true` are the
+    stored headers copied into the response. -/
+def cacheDecision (rq : Req) (ent : Entry) : Sum Exn Bool :=
+  match rq.cc with
+  | .badMaxAge => .inl (.httpError 400)
+  | .noCache => .inr false
+  | cc =>
+    let maxAge := match cc with | .maxAge n => min cacheDelay n | _ => cacheDelay
+    -- age = int(response.time - create_time);  `if age > max_age: ... return False`
+    .inr (decide (rq.now - ent.created ≤ maxAge))
 
 /-- before_handler + handler: returns the state, whether the cache was hit, whether tee is attached -/
 def beforeAndHandler (pg : Pages) (rq : Req) (p : Plan) (cache : Option Cache) :
@@ -687,12 +717,21 @@ def beforeAndHandler (pg : Pages) (rq : Req) (p : Plan) (cache : Option Cache) :
     if rq.method = .post then
       let (r, e) := handlerStage pg rq p r
       (⟨r, none⟩, e, false, false)              -- cache.delete(); not cacheable
+    else if rq.cc = .pragma then
+      let (r, e) := handlerStage pg rq p r       -- Pragma: no-cache: the cache is not consulted
+      (⟨r, cache⟩, e, false, true)
     else
       match cache.bind (·.find rq) with
       | some ent =>
-        let r := { r with hdrs := ent.hdrs.set .age .other, status := some ent.status,
-                          body := bytesBody ent.body, src := ent.src, gz := ent.gz }
-        (⟨r, cache⟩, none, true, false)
+        match cacheDecision rq ent with
+        | .inl e => (⟨r, cache⟩, some e, true, false)      -- raised with request.cached = True, no tee
+        | .inr true =>
+          let r := { r with hdrs := ent.hdrs.set .age .other, status := some ent.status,
+                            body := bytesBody ent.body, src := ent.src, gz := ent.gz }
+          (⟨r, cache⟩, none, true, false)
+        | .inr false =>
+          let (r, e) := handlerStage pg rq p r   -- a *fresh* response: nothing of the stored copy
+          (⟨r, cache⟩, e, false, true)
       | none =>
         let (r, e) := handlerStage pg rq p r
         (⟨r, cache⟩, e, false, true)
@@ -797,9 +836,18 @@ def serve (pg : Pages) (rq : Req) (p : Plan) (cache : Option Cache) : Obs × Opt
     (⟨code, r.hdrs .contentLength, r.hdrs .contentType, (r.hdrs .contentEncoding).isSome, d, e, r.stream,
       cached, r.src, r.gz⟩, cache')
 
-/-- a request history against one application -/
-def serveAll (pg : Pages) (p : Plan) : List Req → Option Cache → List Obs
-  | [], _ => []
-  | rq :: rest, c => let (o, c') := serve pg rq p c; o :: serveAll pg p rest c'
+/-- the plan as it behaves on the handler's `gen`-th invocation (0-based) -/
+def planAt (p : Plan) (gen : Nat) : Plan :=
+  match gen with
+  | 0 => p
+  | g + 1 => { p with h := { p.h with shape := p.h.later.getD g (p.h.later.getLastD p.h.shape) } }
+
+/-- a request history against one application: the cache and the number of handler invocations so far
+    are carried from request to request (the handler runs unless the cache answered) -/
+def serveAll (pg : Pages) (p : Plan) : List Req → Option Cache → Nat → List Obs
+  | [], _, _ => []
+  | rq :: rest, c, gen =>
+    let (o, c') := serve pg rq (planAt p gen) c
+    o :: serveAll pg p rest c' (if o.cached then gen else gen + 1)
 
 end CpModel.Finalize
